@@ -1,0 +1,314 @@
+//! Verification shim, only compiled with `--cfg tiny_std_verif` (never set by the
+//! repository's own build).
+//!
+//! Under that cfg the `sync` module takes `AtomicU32`, `futex_wait` and `futex_wake` from
+//! here instead of `core`/`rusl`.  Every operation is first offered to an optional, process
+//! global hook table, which lets a test harness turn each atomic operation and futex call
+//! into a scheduling point, observe operands, orderings and results, force a spurious
+//! failure of a weak compare-exchange and simulate the futex system calls.
+//! With no hook table installed (or when the hook answers `Pass`/`None`) every operation is
+//! passed straight through to `core::sync::atomic` / `rusl::futex`.
+use core::sync::atomic::{AtomicPtr, AtomicU32 as CoreAtomicU32, Ordering};
+use rusl::error::Errno;
+use rusl::platform::{FutexFlags, TimeSpec};
+
+#[derive(Clone, Copy, Debug, PartialEq, Eq)]
+pub enum OpKind {
+    Load,
+    Store,
+    Swap,
+    Cas,
+    CasWeak,
+    FetchAdd,
+    FetchSub,
+}
+
+/// One pending atomic operation as announced to the hook.
+#[derive(Clone, Copy, Debug)]
+pub struct Op {
+    pub kind: OpKind,
+    /// address of the atomic word
+    pub addr: usize,
+    /// expected value (compare-exchange only)
+    pub expect: u32,
+    /// new value / operand (store, swap, compare-exchange, `fetch_add`, `fetch_sub`)
+    pub arg: u32,
+    /// ordering (success ordering for compare-exchange)
+    pub success: Ordering,
+    /// failure ordering (compare-exchange only, otherwise `Relaxed`)
+    pub failure: Ordering,
+}
+
+/// Answer of `Hooks::before`.
+#[derive(Clone, Copy, Debug, PartialEq, Eq)]
+pub enum Directive {
+    /// Not interested: perform the operation, do not call `after`.
+    Pass,
+    /// Perform the operation on the real atomic with the real ordering, then call `after`.
+    Run,
+    /// Weak compare-exchange only: fail spuriously (a load with the failure ordering is
+    /// performed instead of the exchange), then call `after`.
+    FailWeak,
+}
+
+/// Hook table. All functions may block (that is the point: each is a yield point).
+pub struct Hooks {
+    pub before: fn(&Op) -> Directive,
+    /// `old`: the value found in the word, `ok`: whether a write took place
+    /// (always true for store/swap/fetch ops, false for loads).
+    pub after: fn(&Op, u32, bool),
+    /// Simulated `FUTEX_WAIT`: `Some(0)` woken, `Some(-errno)` failed, `None` = use the kernel.
+    pub futex_wait: fn(&CoreAtomicU32, u32) -> Option<i32>,
+    /// Simulated `FUTEX_WAKE`: `Some(n)` number woken, `Some(-errno)`, `None` = use the kernel.
+    pub futex_wake: fn(&CoreAtomicU32, i32) -> Option<i32>,
+}
+
+static HOOKS: AtomicPtr<Hooks> = AtomicPtr::new(core::ptr::null_mut());
+
+/// Install a hook table for the whole process.
+pub fn install(hooks: &'static Hooks) {
+    HOOKS.store(
+        core::ptr::from_ref::<Hooks>(hooks).cast_mut(),
+        Ordering::SeqCst,
+    );
+}
+
+/// Remove the hook table again (everything passes through afterwards).
+pub fn uninstall() {
+    HOOKS.store(core::ptr::null_mut(), Ordering::SeqCst);
+}
+
+#[inline]
+fn hooks() -> Option<&'static Hooks> {
+    let p = HOOKS.load(Ordering::SeqCst);
+    if p.is_null() {
+        None
+    } else {
+        // SAFETY: only `install` stores non-null pointers, derived from `&'static Hooks`.
+        Some(unsafe { &*p })
+    }
+}
+
+/// Drop-in replacement for the subset of `core::sync::atomic::AtomicU32` used by tiny-std.
+#[repr(transparent)]
+pub struct AtomicU32 {
+    inner: CoreAtomicU32,
+}
+
+impl AtomicU32 {
+    #[inline]
+    #[must_use]
+    pub const fn new(v: u32) -> Self {
+        Self {
+            inner: CoreAtomicU32::new(v),
+        }
+    }
+
+    /// The real atomic behind the shim.
+    #[inline]
+    #[must_use]
+    pub fn inner(&self) -> &CoreAtomicU32 {
+        &self.inner
+    }
+
+    #[inline]
+    #[must_use]
+    pub const fn as_ptr(&self) -> *mut u32 {
+        self.inner.as_ptr()
+    }
+
+    #[inline]
+    fn op(&self, kind: OpKind, expect: u32, arg: u32, success: Ordering, failure: Ordering) -> Op {
+        Op {
+            kind,
+            addr: core::ptr::from_ref::<CoreAtomicU32>(&self.inner) as usize,
+            expect,
+            arg,
+            success,
+            failure,
+        }
+    }
+
+    pub fn load(&self, order: Ordering) -> u32 {
+        if let Some(h) = hooks() {
+            let op = self.op(OpKind::Load, 0, 0, order, Ordering::Relaxed);
+            if (h.before)(&op) != Directive::Pass {
+                let v = self.inner.load(order);
+                (h.after)(&op, v, false);
+                return v;
+            }
+        }
+        self.inner.load(order)
+    }
+
+    pub fn store(&self, val: u32, order: Ordering) {
+        if let Some(h) = hooks() {
+            let op = self.op(OpKind::Store, 0, val, order, Ordering::Relaxed);
+            if (h.before)(&op) != Directive::Pass {
+                // the overwritten value is reported too (exact when the hook serialises threads)
+                let old = self.inner.load(Ordering::Relaxed);
+                self.inner.store(val, order);
+                (h.after)(&op, old, true);
+                return;
+            }
+        }
+        self.inner.store(val, order);
+    }
+
+    pub fn swap(&self, val: u32, order: Ordering) -> u32 {
+        if let Some(h) = hooks() {
+            let op = self.op(OpKind::Swap, 0, val, order, Ordering::Relaxed);
+            if (h.before)(&op) != Directive::Pass {
+                let old = self.inner.swap(val, order);
+                (h.after)(&op, old, true);
+                return old;
+            }
+        }
+        self.inner.swap(val, order)
+    }
+
+    pub fn fetch_add(&self, val: u32, order: Ordering) -> u32 {
+        if let Some(h) = hooks() {
+            let op = self.op(OpKind::FetchAdd, 0, val, order, Ordering::Relaxed);
+            if (h.before)(&op) != Directive::Pass {
+                let old = self.inner.fetch_add(val, order);
+                (h.after)(&op, old, true);
+                return old;
+            }
+        }
+        self.inner.fetch_add(val, order)
+    }
+
+    pub fn fetch_sub(&self, val: u32, order: Ordering) -> u32 {
+        if let Some(h) = hooks() {
+            let op = self.op(OpKind::FetchSub, 0, val, order, Ordering::Relaxed);
+            if (h.before)(&op) != Directive::Pass {
+                let old = self.inner.fetch_sub(val, order);
+                (h.after)(&op, old, true);
+                return old;
+            }
+        }
+        self.inner.fetch_sub(val, order)
+    }
+
+    /// # Errors
+    /// The value found, if it differs from `current`.
+    pub fn compare_exchange(
+        &self,
+        current: u32,
+        new: u32,
+        success: Ordering,
+        failure: Ordering,
+    ) -> Result<u32, u32> {
+        if let Some(h) = hooks() {
+            let op = self.op(OpKind::Cas, current, new, success, failure);
+            if (h.before)(&op) != Directive::Pass {
+                let r = self.inner.compare_exchange(current, new, success, failure);
+                match r {
+                    Ok(old) => (h.after)(&op, old, true),
+                    Err(old) => (h.after)(&op, old, false),
+                }
+                return r;
+            }
+        }
+        self.inner.compare_exchange(current, new, success, failure)
+    }
+
+    /// # Errors
+    /// The value found, if it differs from `current` or the exchange failed spuriously.
+    pub fn compare_exchange_weak(
+        &self,
+        current: u32,
+        new: u32,
+        success: Ordering,
+        failure: Ordering,
+    ) -> Result<u32, u32> {
+        if let Some(h) = hooks() {
+            let op = self.op(OpKind::CasWeak, current, new, success, failure);
+            match (h.before)(&op) {
+                Directive::Pass => {}
+                Directive::Run => {
+                    // strong exchange: spurious failures happen only on demand
+                    let r = self.inner.compare_exchange(current, new, success, failure);
+                    match r {
+                        Ok(old) => (h.after)(&op, old, true),
+                        Err(old) => (h.after)(&op, old, false),
+                    }
+                    return r;
+                }
+                Directive::FailWeak => {
+                    let old = self.inner.load(failure);
+                    (h.after)(&op, old, false);
+                    return Err(old);
+                }
+            }
+        }
+        self.inner
+            .compare_exchange_weak(current, new, success, failure)
+    }
+
+    /// Same algorithm as `core`: a load followed by a `compare_exchange_weak` loop.
+    /// # Errors
+    /// The value found, if `f` returned `None` for it.
+    pub fn fetch_update<F>(
+        &self,
+        set_order: Ordering,
+        fetch_order: Ordering,
+        mut f: F,
+    ) -> Result<u32, u32>
+    where
+        F: FnMut(u32) -> Option<u32>,
+    {
+        let mut prev = self.load(fetch_order);
+        while let Some(next) = f(prev) {
+            match self.compare_exchange_weak(prev, next, set_order, fetch_order) {
+                x @ Ok(_) => return x,
+                Err(next_prev) => prev = next_prev,
+            }
+        }
+        Err(prev)
+    }
+}
+
+/// `rusl::futex::futex_wait` on a shim atomic, offered to the hook first.
+/// # Errors
+/// See `rusl::futex::futex_wait`
+pub fn futex_wait(
+    uaddr: &AtomicU32,
+    val: u32,
+    flags: FutexFlags,
+    timeout: Option<TimeSpec>,
+) -> Result<(), rusl::Error> {
+    if let Some(h) = hooks() {
+        if let Some(r) = (h.futex_wait)(&uaddr.inner, val) {
+            return if r < 0 {
+                Err(rusl::Error {
+                    msg: "`FUTEX` (wait) simulated failure",
+                    code: Some(Errno::new(-r)),
+                })
+            } else {
+                Ok(())
+            };
+        }
+    }
+    rusl::futex::futex_wait(&uaddr.inner, val, flags, timeout)
+}
+
+/// `rusl::futex::futex_wake` on a shim atomic, offered to the hook first.
+/// # Errors
+/// See `rusl::futex::futex_wake`
+pub fn futex_wake(uaddr: &AtomicU32, num_waiters: i32) -> Result<usize, rusl::Error> {
+    if let Some(h) = hooks() {
+        if let Some(r) = (h.futex_wake)(&uaddr.inner, num_waiters) {
+            return if r < 0 {
+                Err(rusl::Error {
+                    msg: "`FUTEX` (wake) simulated failure",
+                    code: Some(Errno::new(-r)),
+                })
+            } else {
+                Ok(r.unsigned_abs() as usize)
+            };
+        }
+    }
+    rusl::futex::futex_wake(&uaddr.inner, num_waiters)
+}
